@@ -640,3 +640,43 @@ func (c *Check) isSignerLike(t *Term, signer string) (bool, string) {
 	}
 	return false, "not traceable to a signer or a stored owner"
 }
+
+// idInputsPresent (C18.11): "distinct inputs give distinct IDs" — the inputs are the real ones. Wherever the context-id
+// generator is called in keeper / handler code, each argument that is read out of the transaction context by a comma-ok
+// type assertion is used only on a path that has tested that assertion's ok result to be true: an assertion whose ok is
+// dropped yields the zero value when the entry is missing or of another type, and two different messages of one
+// transaction (or calls outside one) are then given the same id.
+func (c *Check) idInputsPresent(rule string) {
+	gen := c.typesFn("GenerateRequestContextID")
+	if gen == nil {
+		c.undecided(rule, "types.GenerateRequestContextID", token.NoPos, "context-id generator not found")
+		return
+	}
+	n := 0
+	for _, f := range c.handFuncs("keeper", "service") {
+		for _, pa := range c.P.PathsOf(f) {
+			for i, ev := range pa.Events {
+				if ev.Kind != EvCall || ev.CI.fn != gen {
+					continue
+				}
+				facts := pa.FactsBefore(i)
+				for ai, a := range ev.CI.args {
+					var asserted []*Term
+					a.Walk(func(t *Term) bool {
+						if t.Op == "res" && len(t.A) == 2 && t.A[0].IsAt("0") && stripConv(t.A[1]).Op == "assert" {
+							asserted = append(asserted, t.A[1])
+						}
+						return true
+					})
+					for _, as := range asserted {
+						n++
+						okT := mk("res", atom("1"), as)
+						c.req(facts.Holds(okT, true), rule, unitConstruct(f, fmt.Sprintf("id-input-%d-present", ai)), ev.Pos,
+							"the id generator's argument "+shortTerm(a)+" comes from a comma-ok assertion whose ok result the path has tested")
+					}
+				}
+			}
+		}
+	}
+	c.req(n >= 2, rule, "id-inputs", token.NoPos, fmt.Sprintf("%d asserted inputs of the context-id generator examined", n))
+}
